@@ -379,7 +379,7 @@ mod tests {
         Field { name: "f0".into(), kw_bit: false, list: false, ranges: vec![Rng::new(lo, hi)], array: None, ty, access: Access::RW }
     }
     fn lay(bits: u32, fields: Vec<Field>) -> Layout {
-        Layout { name: "S".into(), base_bits: bits, default: None, default_colon: false, debug: false, fields, enums: vec![], inners: vec![], debug_first: false, vis: 0, decoys: 0, derives: 0, handwritten: 0 }
+        Layout { name: "S".into(), base_bits: bits, default: None, default_colon: false, debug: false, fields, enums: vec![], inners: vec![], debug_first: false, vis: 0, decoys: 0, derives: 0, handwritten: 0, macro_wrap: 0 }
     }
     #[test]
     fn validity() {
